@@ -119,6 +119,10 @@ def oracle(ck):
         x = w.get_series(200000)
         if abs(float(np.var(x)) / (psd * fs) - 1) > 0.03:
             ck.violation("white noise variance %r differs from psd*fs=%r" % (float(np.var(x)), psd * fs), dict(fs=fs, psd=psd), tag="white-var")
+        w2 = NZ.white_noise(fs, psd=psd, seed=ck.rng.randint(1, 10 ** 6))
+        xs_ = np.array([w2.get_sample() for _ in range(3 * 4096 + 100)])       # several refills of the sample buffer
+        if abs(float(np.var(xs_)) / (psd * fs) - 1) > 0.08 or abs(float(np.var(xs_[4096:])) / (psd * fs) - 1) > 0.1:
+            ck.violation("white noise drawn sample by sample has variance %r, not psd*fs=%r" % (float(np.var(xs_)), psd * fs), dict(fs=fs, psd=psd, path="get_sample"), tag="white-var")
     # FFT synthesiser: real series, DFT magnitudes exactly the prescribed ones; band-limited noise has no power outside its band
     for _ in range(12 if ck.tier == "quick" else 150):
         N = ck.rng.choice([2, 3, 8, 9, 64, 101, 256])
